@@ -1,10 +1,10 @@
 #!/bin/bash
 # confirm_round.sh <round-dir>: runs tools/confirm_seed.sh for every <round-dir>/<Cxx>/<mN> that has a patch.diff and no confirm.txt yet.
 R="$1"
-for d in "$R"/C*/m[12]; do
+for d in "$R"/C*/m[1-4]; do
   [ -f "$d/patch.diff" ] || continue
   [ -f "$d/confirm.txt" ] && continue
   ls "$d"/*_test.go >/dev/null 2>&1 || continue
   echo "$d"
 done | xargs -P 4 -I{} sh -c '/verif/tools/confirm_seed.sh {} > {}/confirm.txt.tmp 2>&1; mv {}/confirm.txt.tmp {}/confirm.txt'
-for d in "$R"/C*/m[12]; do [ -f "$d/confirm.txt" ] && echo "$(grep -h '^SEED' $d/confirm.txt | sed 's/^SEED [^ ]*seed_out[0-9]*\///') | $(grep -h '^CHECKS' $d/confirm.txt)"; done
+for d in "$R"/C*/m[1-4]; do [ -f "$d/confirm.txt" ] && echo "$(grep -h '^SEED' $d/confirm.txt | sed 's/^SEED [^ ]*seed_out[0-9]*\///') | $(grep -h '^CHECKS' $d/confirm.txt)"; done
